@@ -216,7 +216,7 @@ func (rn *c15Run) importOracle(peers []int, after string) {
 func c15StallCase(t *testing.T, o *vOut, how string, withdraw bool) {
 	cw := newC15World(t)
 	defer cw.w.stop()
-	rn := &c15Run{cw: cw, o: o}
+	rn := &c15Run{cw: cw, o: o, noModel: true}
 	w := cw.w
 	for i, sp := range []vwPeerSpec{
 		{kind: "ebgp", as: 65001, rid: c15IP(10, 0, 0, 1), addr: c15IP(192, 168, 0, 1)},
@@ -297,7 +297,7 @@ func c15ConcRound(t *testing.T, o *vOut, r *vRand, idx int) {
 	cw := newC15World(t)
 	cw.r = r
 	defer cw.w.stop()
-	rn := &c15Run{cw: cw, o: o}
+	rn := &c15Run{cw: cw, o: o, noModel: true}
 	w := cw.w
 	specs := c15Specs(r)
 	for i, sp := range specs {
